@@ -820,6 +820,12 @@ func compare(v1, v2 *Version) int {
 		}
 	}
 
+	if v1.IsWildcard() {
+		// Matching numbers: both are the same pattern, and the metadata of
+		// a pattern is irrelevant (see Canon).
+		return 0
+	}
+
 	// Version numbers match. Check pre-release, elementwise.
 	// Build metadata is ignored.
 
